@@ -27,6 +27,12 @@ BOUNDSCHECK = True
 
 def gen_cfg(rng):
     kind = state.ALL_KINDS[int(rng.integers(0, 5))]
+    if kind in state.CMS_KINDS and rng.random() < 0.04:
+        # deep tables: more rows than fit a 64-bit mask or an 8-bit row counter
+        c = {"kind": kind, "width": int(rng.integers(1, 4)), "depth": pick(rng, [63, 64, 65, 70, 130, 255, 256, 257, 300])}
+        if kind != "linear":
+            c.update(max_count=2**32 - 1, num_reserved=pick(rng, [3, 15]))
+        return c
     if kind == "linear":
         return {"kind": kind, "width": int(rng.integers(1, 5)), "depth": int(rng.integers(1, 5))}
     if kind == "log16":
@@ -172,7 +178,18 @@ def run_case(case, ctx, mon):
         prims = expand(op, kind)
         if is_log:
             state.numba_seed(seed + n_op)
+        probe = None
+        if kind in state.CMS_KINDS and n_op % 3 == 1:
+            # sketch[key] is looked up before and after the operation: both lookups must equal query(key) at their time
+            uni = ops.universe_of(case["ops"], extra=(b"",))
+            probe = uni[n_op % len(uni)]
+            a0, q0 = L[probe], L.query(probe)
+            mon.check(a0 == q0, "sketch[key]==query(key)", kind=kind, key=hx(probe), getitem=float(a0), query=float(q0), when="before an operation")
         mon.api(ops.apply_op, L, op)
+        if probe is not None:
+            a1, q1 = L[probe], L.query(probe)
+            mon.check(a1 == q1, "sketch[key]==query(key)", kind=kind, key=hx(probe), getitem=float(a1), query=float(q1), when="again after an operation", op=op)
+            mon.count("getitem_lookups_repeated_across_an_operation")
         if is_log:
             state.numba_seed(seed + n_op)
         for pr in prims:
@@ -247,5 +264,6 @@ def floors(mon, ctx):
             mon.floor(f"ngram branch {cls} for {kind}", int(f"{kind}:{cls}" in mon.classes["ngram_branch"]), 1)
         for t in ("ulist", "udict", "add", "ngram", "ungram"):
             mon.floor(f"{t} pairs for {kind}", mon.counters[f"pairs:{kind}:{t}"], 20)
+    mon.floor("sketch[key] looked up before and after an operation", mon.counters["getitem_lookups_repeated_across_an_operation"], 200)
     mon.floor("cases with a shared cell", mon.counters["cases_with_shared_cell"], 100)
     mon.floor("log cases starting near a batch end", mon.counters["log_cases_starting_near_a_batch_end"], 30)
